@@ -39,7 +39,7 @@ impl Typstyle {
             return Err(Error::SyntaxError);
         };
         // Infer indent from context.
-        let indent = utils::count_spaces_after_last_newline(source.text(), range.start);
+        let indent = utils::count_spaces_after_last_newline(source.text(), node.range().start);
         let res = doc
             .nest(indent as isize)
             .pretty(self.config.max_width)
